@@ -13,7 +13,7 @@ EXTRA = {  # related checks that share mechanisms with the seeded property
     "C10": ["C14", "C13"], "C12": ["C13"], "C13": ["C12"], "C14": ["C13", "C15"], "C15": ["C12"], "C16": ["C17"], "C17": ["C16"],
     "C19": ["C10"],
 }
-S = "/tmp/sens"
+S = os.environ.get("SENS_DIR", "/tmp/sens")
 REPO = f"{S}/repo"
 HARN = f"{S}/harness"
 ENV = dict(os.environ, CARGO_NET_OFFLINE="true", CARGO_TARGET_DIR=f"{HARN}/target", VERIF_OUT_ROOT=f"{S}/out", MALLOC_ARENA_MAX="2")
@@ -55,7 +55,7 @@ def main():
     if not ok:
         print("scratch harness does not build on the unchanged tree", err, file=sys.stderr); sys.exit(2)
     results = {}
-    path = "/verif/seeded/SENSITIVITY.json"
+    path = os.environ.get("SENS_RESULTS", "/verif/seeded/SENSITIVITY.json")
     if os.path.exists(path):
         results = json.load(open(path))
     for d in sorted(glob.glob("/verif/seeded/C*-*")):
